@@ -46,3 +46,38 @@ def forwarded(model, rep, rule, f, param, callee_filter, why, floor_counter=None
         rep.check(passed, rule, f.qualname, where(f, c), f"`{src(c.func)}` receives `{param}`",
                   f"`{src(c)[:70]}` omits `{param}` although {callee.qualname} takes it and {f.qualname} was given one: {why}", stmt=f"forward {param} -> {src(c.func)}")
     return n
+
+
+def token_loops_end_at_eof(model, rep, rule):
+    """A `while True` loop that pulls tokens and leaves on a token-kind test must also leave at end of input
+    (Tokenizer.get() returns EOF tokens for ever): it exits on is_eof / is_eol_or_eof, on a negative kind test, or raises."""
+    import re
+    from engine.cfg import normalise_compare, atoms
+    from engine.model import walk_no_nested
+    # token loops: a loop that ends on a token-kind test must also end at end of input (Tokenizer.get() returns EOF tokens for ever)
+    n_tok = 0
+    for f in sorted(model.all_functions(), key=lambda g: g.qualname):
+        if f.module.name not in ("dns.zonefile", "dns.tokenizer", "dns.message") and not f.module.name.startswith("dns.rdtypes") and f.module.name != "dns.rdata":
+            continue
+        for lp in [n for n in walk_no_nested(f.node) if isinstance(n, ast.While)]:
+            gets = [c for c in ast.walk(lp) if isinstance(c, ast.Call) and isinstance(c.func, ast.Attribute) and c.func.attr == "get" and src(c.func.value) in ("self.tok", "tok", "self")
+                    and not c.args]
+            if not gets or not (isinstance(lp.test, ast.Constant) and lp.test.value in (1, True)):
+                continue
+            exits = [n for n in ast.walk(lp) if isinstance(n, ast.If) and any(isinstance(b, (ast.Break, ast.Return)) for b in n.body)]
+            kinds, negative = set(), False
+            for n in exits:
+                for a in atoms(normalise_compare(n.test)):
+                    m_ = re.search(r"\.(is_\w+)\(\)$", a[0])
+                    if m_ and a[1] == "truthy":
+                        kinds.add(m_.group(1))
+                    elif m_ and a[1] == "falsy":
+                        negative = True  # leaves as soon as the token is NOT of some kind: an EOF token is of no other kind
+            raises = any(isinstance(n, ast.Raise) for n in ast.walk(lp))
+            if not kinds and not negative:
+                continue
+            n_tok += 1
+            okk = negative or bool(kinds & {"is_eof", "is_eol_or_eof"}) or raises
+            rep.check(okk, rule, f.qualname, where(f, lp), f"token loop ends on {sorted(kinds)}" + (" or raises" if raises else ""),
+                      f"the token loop ends only on {sorted(kinds)}: at end of input get() keeps returning EOF tokens, so a last line without a newline makes the reader spin for ever", stmt="token-loop-eof")
+    rep.floor(rule + "-token-loops", n_tok, 1)
